@@ -48,9 +48,6 @@ def make_judges(ctx):
         if not _pyint_carrier(si.carrier):
             ctx.skip('store:not a Python-integer carrier')
             return
-        if isinstance(si.carrier, (list, tuple)) and np.array(si.carrier).dtype.kind == 'f':
-            ctx.skip('store:mixed integer list that NumPy itself promotes to float64 (DESIGN 3.13)')
-            return
         nf = 0 if si.raw else post.n_frac
         sc = F(2) ** nf
         xs = [v * sc for v in si.values]
@@ -196,7 +193,8 @@ def run_case(case, ctx):
     if y0 is not None:
         _try(lambda: y0(ks[0]))
         _try(lambda: y0.set_val(ks[1]))
-    _try(lambda: Fxp([ks[0], ks[1]] if np.array([ks[0], ks[1]]).dtype.kind != 'f' else [ks[0], ks[0] + 1], s, n, nf, raw=True, overflow=o))
+    _try(lambda: Fxp([ks[0], ks[1]], s, n, nf, raw=True, overflow=o))
+    _try(lambda: Fxp([[ks[0], 1], [-1 if s else 0, ks[2]]], s, n, nf, raw=True, overflow=o))
     # render / parse / bitwise at this width
     inr = [rng.choice([lo, hi, -1 if s else hi, 0, rng.randint(lo, hi), rng.randint(lo, hi)]) for _ in range(3)]
     for k in inr[:2]:
@@ -211,10 +209,11 @@ def run_case(case, ctx):
         _try(lambda: z & mk)
         _try(lambda: z | mk)
         _try(lambda: z ^ mk)
-    za = Fxp([inr[0], inr[1], inr[2]], s, n, nf, raw=True) if np.array(inr).dtype.kind != 'f' else None
-    if za is not None:
-        c11.roundtrip(ctx, za, s, n, nf)
-        _try(lambda: ~za)
+    za = Fxp([inr[0], inr[1], inr[2]], s, n, nf, raw=True)
+    c11.roundtrip(ctx, za, s, n, nf)
+    _try(lambda: ~za)
+    zb = Fxp([[hi, 1], [lo, inr[0]]], s, n, nf, raw=True)        # codes beyond 2^63 next to short ones
+    c11.roundtrip(ctx, zb, s, n, nf)
     # extended_prec indicator across the boundary, both directions
     t = Fxp(3, s, 60, 0)
     _try(lambda: t.resize(s, n, 0))
